@@ -9,9 +9,14 @@ import (
 	"sync"
 	"sync/atomic"
 
+	"time"
+
 	"github.com/herohde/morlock/pkg/board"
+	"github.com/herohde/morlock/pkg/board/fen"
+	"github.com/herohde/morlock/pkg/engine"
 	"github.com/herohde/morlock/pkg/eval"
 	"github.com/herohde/morlock/pkg/search"
+	"github.com/herohde/morlock/pkg/search/searchctl"
 	"verif/harness/internal/out"
 	"verif/harness/internal/proj"
 )
@@ -36,11 +41,19 @@ func tthammer(args []string) {
 	calls := fs.Int("calls", 10, "calls per goroutine")
 	maxg := fs.Int("g", 4, "maximum goroutines")
 	path := fs.String("out", "", "output ndjson")
+	eng := fs.Bool("engine", false, "the tables an engine hands to its searches across new games, with halted searches still unwinding")
 	_ = fs.Parse(args)
 
 	r := rand.New(rand.NewSource(*seed))
 	w := out.Create(*path)
 	ctx := context.Background()
+	if *eng {
+		for i := 0; i < *n; i++ {
+			engineTables(ctx, r, w)
+		}
+		w.Close()
+		return
+	}
 
 	for hist := 0; hist < *n; hist++ {
 		nslots := []int{1, 2, 4}[r.Intn(3)]
@@ -122,4 +135,118 @@ func tthammer(args []string) {
 		w.Emit(out.M{"op": "used", "used": int(tt.Used()*float64(nslots) + 0.5), "frac1000": int(tt.Used() * 1000), "slots": nslots})
 	}
 	w.Close()
+}
+
+// unwinding is a search that returns at once for depth 1 and from depth 2 on keeps storing entries
+// (hash = slot index) until released, whatever its context says: a halted search that has not
+// noticed yet.
+type unwinding struct {
+	mu      sync.Mutex
+	writers []*writerT
+	release chan struct{}
+}
+
+type writerT struct {
+	started, exited chan struct{}
+}
+
+func (u *unwinding) Search(ctx context.Context, sctx *search.Context, b *board.Board, depth int) (uint64, eval.Score, []board.Move, error) {
+	move := board.Move{From: board.E2, To: board.E4}
+	if depth == 1 {
+		return 1, eval.HeuristicScore(0), []board.Move{move}, nil
+	}
+	wr := &writerT{started: make(chan struct{}), exited: make(chan struct{})}
+	u.mu.Lock()
+	u.writers = append(u.writers, wr)
+	u.mu.Unlock()
+	defer close(wr.exited)
+	mask := (sctx.TT.Size() >> 5) - 1
+	var i uint64
+	for n := 0; ; n++ {
+		if n == 1000 {
+			close(wr.started)
+		}
+		if n&0xff == 0 {
+			select {
+			case <-u.release:
+				return 0, eval.Score{}, nil, search.ErrHalted
+			default:
+			}
+		}
+		sctx.TT.Write(board.ZobristHash(i), search.ExactBound, 1, 2, eval.HeuristicScore(1), move)
+		i = (i + 7919) & mask
+	}
+}
+
+func (u *unwinding) waitStarted(k int) {
+	for {
+		u.mu.Lock()
+		var wr *writerT
+		if len(u.writers) > k {
+			wr = u.writers[k]
+		}
+		u.mu.Unlock()
+		if wr != nil {
+			<-wr.started
+			return
+		}
+		time.Sleep(100 * time.Microsecond)
+	}
+}
+
+// engineTables: an engine with a table; a search is started and halted by new games (Reset) while it
+// is still storing; sometimes the new game is searched too, so that two generations of searches
+// store at once.  When all is quiet every table the engine ever handed out must count exactly
+// its occupied slots.
+func engineTables(ctx context.Context, r *rand.Rand, w *out.Writer) {
+	var mu sync.Mutex
+	var tables []search.TranspositionTable
+	factory := func(ctx context.Context, size uint64) search.TranspositionTable {
+		tt := search.NewTranspositionTable(ctx, size)
+		mu.Lock()
+		tables = append(tables, tt)
+		mu.Unlock()
+		return tt
+	}
+	root := &unwinding{release: make(chan struct{})}
+	e := engine.New(ctx, "tables", "verif", root, engine.WithTable(factory), engine.WithOptions(engine.Options{Hash: 1}))
+	launched := 0
+	analyze := func() {
+		if _, err := e.Analyze(ctx, searchctl.Options{}); err != nil {
+			out.Fatalf("analyze: %v", err)
+		}
+		root.waitStarted(launched)
+		launched++
+	}
+	analyze()
+	resets := 1 + r.Intn(6)
+	for k := 0; k < resets; k++ {
+		if err := e.Reset(ctx, fen.Initial); err != nil {
+			out.Fatalf("reset: %v", err)
+		}
+		time.Sleep(time.Duration(r.Intn(1500)) * time.Microsecond)
+		if r.Intn(3) == 0 {
+			analyze()
+		}
+	}
+	close(root.release)
+	_, _ = e.Halt(ctx)
+	root.mu.Lock()
+	ws := append([]*writerT{}, root.writers...)
+	root.mu.Unlock()
+	for _, wr := range ws {
+		<-wr.exited
+	}
+	var ts []out.M
+	for _, tt := range tables {
+		n := tt.Size() >> 5
+		occupied := 0
+		for i := uint64(0); i < n; i++ {
+			if _, _, _, _, ok := tt.Read(board.ZobristHash(i)); ok {
+				occupied++
+			}
+		}
+		ts = append(ts, out.M{"slots": n, "occupied": occupied, "counted": int(tt.Used()*float64(n) + 0.5), "frac1000": int(tt.Used() * 1000)})
+	}
+	w.Emit(out.M{"op": "engine-tables", "resets": resets, "searches": launched, "tables": ts})
 }
